@@ -46,6 +46,14 @@ func workDir(tpl string) string {
 	return d
 }
 
+// withClose runs body and closes c afterwards. When body panics c is deliberately NOT closed: immudb may have
+// panicked while holding one of c's locks and Close would block for ever (seen with multiapp.ReadAt).
+func withClose(c io.Closer, body func() string) string {
+	out := body()
+	c.Close()
+	return out
+}
+
 // ---------- ReplicateTx ----------
 
 type stState struct {
@@ -72,7 +80,12 @@ func replicateRun(skipIntegrity bool) func(e *enc, in []byte) string {
 		defer os.RemoveAll(d)
 		st, err := store.Open(d, sopts(1))
 		must(err)
-		defer st.Close()
+		return withClose(st, func() string { return replicateOne(st, in, valid, skipIntegrity) })
+	}
+}
+
+func replicateOne(st *store.ImmuStore, in, valid []byte, skipIntegrity bool) string {
+	{
 		before := stateOf(st)
 		// a transaction id ahead of the replica makes ReplicateTx wait for its predecessor until the context ends
 		// (by design), hence the deadline; it only decides between "err: context deadline exceeded" and waiting
@@ -207,17 +220,18 @@ func vrefRun(e *enc, in []byte) string {
 	must(t.Close())
 	st, err := store.Open(d, sopts(1))
 	must(err)
-	defer st.Close()
-	ref, err := st.Get(bg, []byte("zz"))
-	if err != nil {
-		return "err: " + err.Error()
-	}
-	ref.KVMetadata()
-	ref.TxMetadata()
-	if _, err := ref.Resolve(); err != nil {
-		return "ok ref, resolve err: " + err.Error()
-	}
-	return "ok"
+	return withClose(st, func() string {
+		ref, err := st.Get(bg, []byte("zz"))
+		if err != nil {
+			return "err: " + err.Error()
+		}
+		ref.KVMetadata()
+		ref.TxMetadata()
+		if _, err := ref.Resolve(); err != nil {
+			return "ok ref, resolve err: " + err.Error()
+		}
+		return "ok"
+	})
 }
 
 // ---------- on-disk files ----------
@@ -244,6 +258,9 @@ func fileEncs(target, tpl string, whole int, lite func(rel string) bool) {
 			t := 64
 			if lite != nil && lite(rel) {
 				h, t = 8, 32
+				if strings.HasPrefix(rel, "aht/") || strings.HasPrefix(rel, "index/") {
+					h, t = 0, 0 // left to ahtree.Open+read / tbtree.Open+scan in the quick tier
+				}
 			}
 			for i := range bs {
 				if i < h || i >= len(bs)-t {
@@ -251,7 +268,9 @@ func fileEncs(target, tpl string, whole int, lite func(rel string) bool) {
 				}
 			}
 		}
-		prepEncs[target] = append(prepEncs[target], enc{Name: rel, B: bs, Pos: pos, Aux: tpl})
+		if pos == nil || len(pos) > 0 {
+			prepEncs[target] = append(prepEncs[target], enc{Name: rel, B: bs, Pos: pos, Aux: tpl})
+		}
 	}
 }
 
@@ -269,34 +288,35 @@ func storeOpenRun(e *enc, in []byte) string {
 		if err != nil {
 			return "err: open: " + firstWords(err.Error(), 6)
 		}
-		defer st.Close()
-		n := st.LastCommittedTxID()
-		tx := store.NewTx(8, 32)
-		okTx, okVal := 0, 0
-		for id := uint64(1); id <= n && id <= 8; id++ {
-			if err := st.ReadTx(id, false, tx); err != nil {
-				continue
+		return withClose(st, func() string {
+			n := st.LastCommittedTxID()
+			tx := store.NewTx(8, 32)
+			okTx, okVal := 0, 0
+			for id := uint64(1); id <= n && id <= 8; id++ {
+				if err := st.ReadTx(id, false, tx); err != nil {
+					continue
+				}
+				okTx++
+				for _, en := range tx.Entries() {
+					if _, err := st.ReadValue(en); err == nil {
+						okVal++
+					}
+				}
+				st.ExportTx(id, false, false, tx)
+				st.ReadTxHeader(id, false, false)
 			}
-			okTx++
-			for _, en := range tx.Entries() {
-				if _, err := st.ReadValue(en); err == nil {
-					okVal++
+			if h, err := st.ReadTxHeader(n, false, false); err == nil && n > 1 {
+				if h1, err := st.ReadTxHeader(1, false, false); err == nil {
+					st.DualProof(h1, h)
 				}
 			}
-			st.ExportTx(id, false, false, tx)
-			st.ReadTxHeader(id, false, false)
-		}
-		if h, err := st.ReadTxHeader(n, false, false); err == nil && n > 1 {
-			if h1, err := st.ReadTxHeader(1, false, false); err == nil {
-				st.DualProof(h1, h)
+			for _, k := range []string{"k1", "k4", "k6"} {
+				if ref, err := st.Get(bg, []byte(k)); err == nil {
+					ref.Resolve()
+				}
 			}
-		}
-		for _, k := range []string{"k1", "k4", "k6"} {
-			if ref, err := st.Get(bg, []byte(k)); err == nil {
-				ref.Resolve()
-			}
-		}
-		return fmt.Sprintf("ok open: %d txs, %d readable, %d values", n, okTx, okVal)
+			return fmt.Sprintf("ok open: %d txs, %d readable, %d values", n, okTx, okVal)
+		})
 	})
 }
 
@@ -327,35 +347,36 @@ func tbtreeRun(e *enc, in []byte) string {
 		if err != nil {
 			return "err: open: " + firstWords(err.Error(), 6)
 		}
-		defer t.Close()
-		n, nh := 0, 0
-		if s, err := t.Snapshot(); err == nil {
-			if r, err := s.NewReader(tbtree.ReaderSpec{}); err == nil {
-				for ; n < 1000; n++ {
-					if _, _, _, _, err := r.Read(); err != nil {
-						break
+		return withClose(t, func() string {
+			n, nh := 0, 0
+			if s, err := t.Snapshot(); err == nil {
+				if r, err := s.NewReader(tbtree.ReaderSpec{}); err == nil {
+					for ; n < 1000; n++ {
+						if _, _, _, _, err := r.Read(); err != nil {
+							break
+						}
 					}
+					r.Close()
 				}
-				r.Close()
-			}
-			if r, err := s.NewReader(tbtree.ReaderSpec{DescOrder: true, SeekKey: []byte("key99")}); err == nil {
-				for k := 0; k < 1000; k++ {
-					if _, _, _, _, err := r.Read(); err != nil {
-						break
+				if r, err := s.NewReader(tbtree.ReaderSpec{DescOrder: true, SeekKey: []byte("key99")}); err == nil {
+					for k := 0; k < 1000; k++ {
+						if _, _, _, _, err := r.Read(); err != nil {
+							break
+						}
 					}
+					r.Close()
 				}
-				r.Close()
+				s.Close()
 			}
-			s.Close()
-		}
-		for i := 0; i < 12; i++ {
-			k := []byte(fmt.Sprintf("key%02d", i))
-			t.Get(k)
-			if tvs, _, err := t.History(k, 0, false, 10); err == nil {
-				nh += len(tvs)
+			for i := 0; i < 12; i++ {
+				k := []byte(fmt.Sprintf("key%02d", i))
+				t.Get(k)
+				if tvs, _, err := t.History(k, 0, false, 10); err == nil {
+					nh += len(tvs)
+				}
 			}
-		}
-		return fmt.Sprintf("ok open: ts=%d, %d keys scanned, %d history values", t.Ts(), n, nh)
+			return fmt.Sprintf("ok open: ts=%d, %d keys scanned, %d history values", t.Ts(), n, nh)
+		})
 	})
 }
 
@@ -382,19 +403,20 @@ func ahtRun(e *enc, in []byte) string {
 		if err != nil {
 			return "err: open: " + firstWords(err.Error(), 6)
 		}
-		defer t.Close()
-		n := t.Size()
-		t.Root()
-		ok := 0
-		for i := uint64(1); i <= n && i <= 16; i++ {
-			if _, err := t.DataAt(i); err == nil {
-				ok++
+		return withClose(t, func() string {
+			n := t.Size()
+			t.Root()
+			ok := 0
+			for i := uint64(1); i <= n && i <= 16; i++ {
+				if _, err := t.DataAt(i); err == nil {
+					ok++
+				}
+				t.RootAt(i)
+				t.InclusionProof(i, n)
+				t.ConsistencyProof(i, n)
 			}
-			t.RootAt(i)
-			t.InclusionProof(i, n)
-			t.ConsistencyProof(i, n)
-		}
-		return fmt.Sprintf("ok open: size %d, %d payloads readable", n, ok)
+			return fmt.Sprintf("ok open: size %d, %d payloads readable", n, ok)
+		})
 	})
 }
 
@@ -430,21 +452,22 @@ func singleappRun(e *enc, in []byte) string {
 		if err != nil {
 			return "err: open: " + firstWords(err.Error(), 6)
 		}
-		defer a.Close()
-		sz, _ := a.Size()
-		a.Metadata()
-		buf := make([]byte, 64)
-		n := 0
-		for off := int64(0); off < sz && off < 256; off += 7 {
-			if _, err := a.ReadAt(buf[:9], off); err == nil {
-				n++
+		return withClose(a, func() string {
+			sz, _ := a.Size()
+			a.Metadata()
+			buf := make([]byte, 64)
+			n := 0
+			for off := int64(0); off < sz && off < 256; off += 7 {
+				if _, err := a.ReadAt(buf[:9], off); err == nil {
+					n++
+				}
 			}
-		}
-		if r := appendable.NewReaderFrom(a, 0, 16); r != nil {
-			r.ReadUint64()
-			r.Read(buf)
-		}
-		return fmt.Sprintf("ok open: size %d format %d, %d reads", sz, a.CompressionFormat(), n)
+			if r := appendable.NewReaderFrom(a, 0, 16); r != nil {
+				r.ReadUint64()
+				r.Read(buf)
+			}
+			return fmt.Sprintf("ok open: size %d format %d, %d reads", sz, a.CompressionFormat(), n)
+		})
 	})
 }
 
@@ -454,19 +477,20 @@ func multiappRun(e *enc, in []byte) string {
 		if err != nil {
 			return "err: open: " + firstWords(err.Error(), 6)
 		}
-		defer m.Close()
-		sz, _ := m.Size()
-		m.Metadata()
-		buf := make([]byte, 40)
-		n := 0
-		for off := int64(0); off < sz && off < 256; off += 11 {
-			if _, err := m.ReadAt(buf, off); err == nil || err == io.EOF {
-				n++
+		return withClose(m, func() string {
+			sz, _ := m.Size()
+			m.Metadata()
+			buf := make([]byte, 40)
+			n := 0
+			for off := int64(0); off < sz && off < 256; off += 11 {
+				if _, err := m.ReadAt(buf, off); err == nil || err == io.EOF {
+					n++
+				}
 			}
-		}
-		m.Append([]byte("tail"))
-		m.Flush()
-		return fmt.Sprintf("ok open: size %d, %d reads", sz, n)
+			m.Append([]byte("tail"))
+			m.Flush()
+			return fmt.Sprintf("ok open: size %d, %d reads", sz, n)
+		})
 	})
 }
 
